@@ -193,7 +193,14 @@ func c01Units(w *World, r *Report) {
 					} else if isRuneSlice(x.Call.Args[0].Type()) {
 						u = unitRunes
 					}
+				} else if x.Call.IsInvoke() && nm(x.Call.Method) == "Number" && nm(f) == "substring" {
+					// the position and length arguments of substring() count characters (XPath 1.0 §4.2)
+					u = unitRunes
 				} else if sc := x.Call.StaticCallee(); sc != nil {
+					switch sc.String() {
+					case "math.Floor", "math.Ceil", "math.Round", "math.Trunc", "math.RoundToEven":
+						u = unit(x.Call.Args[0], d+1)
+					}
 					switch sc.String() {
 					case "strings.Index", "strings.LastIndex", "strings.IndexByte", "strings.IndexRune", "strings.IndexAny", "strings.LastIndexByte", "strings.LastIndexAny", "strings.IndexFunc":
 						u = unitBytes
